@@ -28,8 +28,10 @@
   `fastset`), and proved: `fastset_spec`, `hopcroft_invariants`, `hopcroft_stable_on_exit`,
   `hopcroft_correct` (the result of `refine` IS the Moore/Nerode partition up to block numbering)
   and `minimize_model_passes_check` (the model's `minimize` output always passes the checker of
-  layer (1)).  These are conditional on the model run returning (`= some _`): absence of panics
-  and termination within the fuel are NOT proved (see the section comment below).
+  layer (1)).  These are conditional on the model run returning (`= some _`); that it always does
+  — no panic site of the model is reached and the loop of `refine` ends within the model's fuel
+  `(k+1)·n+1` — is proved at the end of the file (`run_total`, `minimize_total`; proofs in
+  `Proofs/HopcroftTotal.lean`), which makes the headline unconditional (`minimize_correct_total`).
 
   Hypotheses.  `wfAut A = true` is the decidable "complete DFA as the crate hands them out"
   predicate (ids = indices, per-state partitions well formed, successors in range, a default
@@ -60,6 +62,9 @@
     `hopcroft_stable_on_exit`, `hopcroft_stable_blocks`, `hopcroft_correct`,
     `hopcroft_block_iff_indistinguishable`, `minimize_model_passes_check`,
     `minimize_model_correct`   Hopcroft as written, see the second half of the file
+  * `hopcroft_new_no_panic`, `hopcroft_round_no_panic`, `hopcroft_fuel_sufficient`, `run_total`,
+    `hopcroft_correct_total`, `minimize_total`, `minimize_correct_total`   totality (no panic, fuel),
+                             see the last section of the file
 -/
 import SmtModel.Proofs.Minimize
 import SmtModel.Proofs.Partition
@@ -67,6 +72,7 @@ import SmtModel.Proofs.Quotient
 import SmtModel.Proofs.FastSet
 import SmtModel.Proofs.Hopcroft
 import SmtModel.Proofs.HopcroftMinimize
+import SmtModel.Proofs.HopcroftTotal
 
 namespace Smt.C04
 open Smt Smt.Minimize
@@ -504,8 +510,9 @@ example : quotient exA (moore exA) = some exQ ∧ checkMinimized exA exQ = true 
                                 by "…or exactly one successor lies in the splitter's block";
   * `hopcroft_correct`          hence `P` is exactly the Moore / Nerode partition (`mooreAbs`, the
                                 specification of op `hopcroft`) up to the numbering of the blocks.
-  NOT proved: that `Hopcroft.run` never returns `none` on a closed DFA (absence of panics and
-  sufficiency of the fuel `(k+1)·n+1`, i.e. termination); the O(n log n) bound.  -/
+  That `Hopcroft.run` never returns `none` on a closed DFA (absence of panics and sufficiency of the
+  fuel `(k+1)·n+1`, i.e. termination) is proved in the last section of this file (`run_total`).
+  NOT proved: the O(n log n) bound.  -/
 
 section Hopcroft
 open Hopcroft Partition BasePartition
@@ -694,5 +701,144 @@ example : ∃ Q, Automaton.minimize exA = some Q ∧ checkMinimized exA Q = true
   cases hq : Automaton.minimize exA with
   | none => exact absurd hq (by decide +kernel)
   | some Q => exact ⟨Q, rfl, minimize_model_passes_check exA_autWF (by decide +kernel) hq⟩
+
+/-! ### totality: no panic site is reached and the fuel of `refine` suffices
+  (proofs in `Proofs/HopcroftTotal.lean`)
+
+  Hypotheses: `Closed δ n k` (what `compile_successors` guarantees, C14), `1 ≤ n`, `1 ≤ k`, and the
+  finality closure is defined on the states (`is_final(x)` does not itself panic for `x < n`; its
+  values are arbitrary).  `1 ≤ k` is needed: with an empty alphabet `Minimizer::new` adds no splitter,
+  `SplitterSet.list` stays empty and `has_active_splitter` indexes `l[0]` out of bounds as soon as
+  the loop of `refine` is entered (`index() < num_states`, e.g. `n = 2`, `k = 0`, no final state:
+  `Hopcroft.run … = none`; the crate never does this: `pick_alphabet` is never empty, C14).
+
+  no panic.  The invariant is `Inv` of `Proofs/Hopcroft.lean` (main partition `PartWF`; splitter
+  lists `LWF`: `num_active ≤ len`; every item `(c, class)` of every list has `c < k`, `class ≠ 0`,
+  `class` a block of the well-formed `pred_classes[c]`; chars of one list pairwise distinct) plus the
+  new clause `CurOK`: the cursor `active_block` is a valid index of `SplitterSet.list`.  Site by site:
+  `list.swap` in `add`, `&list[num_active]` / `debug_assert!(num_active > 0)` in `pick_active`,
+  `self.list[b]` in `add_splitter`, `l[b]` in `has_active_splitter`, `&mut self.list[b]` in
+  `pick_splitter` by `LWF`/`CurOK`; `debug_assert!(s.class != 0)`, `pred_classes[c]`,
+  `p.refine_block`, `p.smaller_block` in `upate_splitters_after_refinement` by the item clauses;
+  `debug_assert_eq!(num_blocks(), 2)` and `debug_assert!(i == 1 && j == 2)` in `init_main_partition`
+  by `Partition::new`; `block_id(x)`, `block_size(b)`, the `FastSet` calls (`x < max = num_blocks`)
+  in `collect_refinement_candidates` / `refine_with_splitter` by `PartWF`; `delta`/`block_ids[..]`
+  inside `refine_block_with_fun` by `Closed`; `debug_assert_eq!(i, b)` by `refine_block`'s result
+  shape; and `debug_assert!(i != 0)` in `refine_block_with_splitter` by a SEMANTIC argument: every
+  candidate block was inserted because one of its members has its `c`-successor in the splitter's
+  block, and refining the other candidates (distinct blocks, the splitter's own block last) moves
+  neither that member nor the splitter's block.
+
+  fuel.  `Φ m = (number of active items) + k · (n + 1 − num_blocks)` (`Phi`).  `pick_splitter`
+  deactivates one item; a split raises `num_blocks` by one and activates at most one more item per
+  entry of the old list of the split block (an active entry yields ≤ 2 active ones, an inactive one
+  exactly ≤ 1 — the "smaller half" rule), i.e. at most `k`; `num_blocks ≤ n + 1`.  So every round
+  lowers `Φ`, `Φ ≤ k·n` after `new`, and the model's fuel `(k+1)·n+1` is sufficient (with room to
+  spare: `k·(n−1)+1` rounds suffice; confirmed exhaustively for `n ≤ 3, k ≤ 2`, `n = 4, k = 1`,
+  `n = 2, k = 3` by evaluation). -/
+
+section HopcroftTotal
+open Hopcroft Partition BasePartition
+
+variable {δ : Nat → Nat → Option Nat} {isFinal : Nat → Option Bool} {n k : Nat}
+
+/-- T:hopcroft_new_no_panic — `Minimizer::new(n, k, delta, is_final)` reaches no panic site; it
+    establishes the invariant (`Inv`, `CurOK`) and `Φ ≤ k·n` -/
+theorem hopcroft_new_no_panic (hcl : Closed δ n k) (hn : 1 ≤ n) (hk : 1 ≤ k)
+    (hfin : ∀ x, x < n → isFinal x ≠ none) :
+    ∃ m, Hopcroft.new δ isFinal n k = some m ∧ Inv δ isFinal n k (fun _ _ _ => False) m ∧
+      CurOK m.splitters ∧ Phi n k m ≤ k * n := by
+  obtain ⟨m, hnew, hcur, hphi⟩ := new_total (isFinal := isFinal) hcl hn hk hfin
+  exact ⟨m, hnew, new_inv hcl hnew, hcur, hphi⟩
+
+/-- T:hopcroft_round_no_panic — one iteration of the `while` loop of `refine` under the invariant:
+    `index()` and `pick_splitter()` do not panic, and if a splitter is picked, `refine_with_splitter`
+    does not panic, re-establishes the invariant and lowers `Φ` -/
+theorem hopcroft_round_no_panic (hcl : Closed δ n k) {m : Minimizer}
+    (inv : Inv δ isFinal n k (fun _ _ _ => False) m) (hcur : CurOK m.splitters) :
+    m.mainPartition.index = some (m.mainPartition.numBlocks - 1) ∧
+    ∃ r m1, Hopcroft.pickSplitter m = some (r, m1) ∧
+      ∀ s, r = some s → ∃ m2, refineWithSplitter δ m1 s = some m2 ∧
+        Inv δ isFinal n k (fun _ _ _ => False) m2 ∧ CurOK m2.splitters ∧ Phi n k m2 < Phi n k m :=
+  round_total hcl inv hcur
+
+/-- T:hopcroft_fuel_sufficient — under the invariant the loop of `refine` returns with any fuel
+    above `Φ`; the model's own fuel `refineFuel n k = (k+1)·n+1` is above the `k·n` that bounds `Φ`
+    after `new` -/
+theorem hopcroft_fuel_sufficient (hcl : Closed δ n k) {m : Minimizer}
+    (inv : Inv δ isFinal n k (fun _ _ _ => False) m) (hcur : CurOK m.splitters) {fuel : Nat}
+    (hf : Phi n k m < fuel) : ∃ m', refineLoop δ fuel m = some m' :=
+  refineLoop_total hcl fuel m inv hcur hf
+
+theorem refineFuel_gt (n k : Nat) : k * n < refineFuel n k := by
+  unfold refineFuel
+  have : (k + 1) * n = k * n + n := by rw [Nat.add_mul, Nat.one_mul]
+  omega
+
+/-- T:run_total — `Minimizer::new(n, k, delta, is_final).refine()` always returns: no panic site of
+    the model is reached and the loop ends within the model's fuel -/
+theorem run_total (hcl : Closed δ n k) (hn : 1 ≤ n) (hk : 1 ≤ k)
+    (hfin : ∀ x, x < n → isFinal x ≠ none) : ∃ P, Hopcroft.run δ isFinal n k = some P :=
+  Hopcroft.run_total hcl hn hk hfin
+
+/-- T:hopcroft_correct_total — unconditional form of `hopcroft_invariants` + `hopcroft_correct`:
+    the run returns a partition of the states which is exactly the Moore / Nerode partition -/
+theorem hopcroft_correct_total (hcl : Closed δ n k) (hn : 1 ≤ n) (hk : 1 ≤ k)
+    (hfin : ∀ x, x < n → isFinal x ≠ none) :
+    ∃ P, Hopcroft.run δ isFinal n k = some P ∧ PartWF P n ∧
+      ∀ x y, x < n → y < n →
+        (blk P x = blk P y ↔
+          (mooreAbs n (ff isFinal) (dd δ) (List.range k)).getD x 0 =
+          (mooreAbs n (ff isFinal) (dd δ) (List.range k)).getD y 0) := by
+  obtain ⟨P, hP⟩ := run_total (isFinal := isFinal) hcl hn hk hfin
+  exact ⟨P, hP, (hopcroft_invariants hcl hP).1, fun x y hx hy => hopcroft_correct hcl hP hx hy⟩
+
+/-! non-vacuity: the hypotheses hold for the 6-state example above -/
+
+theorem exClosed : Closed exDelta 6 2 := by
+  intro x c hx hc
+  have : x = 0 ∨ x = 1 ∨ x = 2 ∨ x = 3 ∨ x = 4 ∨ x = 5 := by omega
+  have : c = 0 ∨ c = 1 := by omega
+  rcases ‹x = 0 ∨ _› with rfl | rfl | rfl | rfl | rfl | rfl <;> rcases ‹c = 0 ∨ _› with rfl | rfl <;>
+    exact ⟨_, rfl, by decide⟩
+
+theorem exFinal_total : ∀ x, x < 6 → exFinal x ≠ none := by
+  intro x hx
+  have : x = 0 ∨ x = 1 ∨ x = 2 ∨ x = 3 ∨ x = 4 ∨ x = 5 := by omega
+  rcases this with rfl | rfl | rfl | rfl | rfl | rfl <;> decide
+
+example : ∃ P, Hopcroft.run exDelta exFinal 6 2 = some P :=
+  run_total exClosed (by decide) (by decide) exFinal_total
+
+end HopcroftTotal
+
+/-- T:minimize_total — the model of `Automaton::minimize` always returns on an automaton as the
+    crate hands them out: `compile_successors` (C14), `Minimizer::new`, `refine` (within its fuel),
+    `p.index()`, `StateMapping::from_partition` (`block_id(s) - 1` does not underflow, `new_id[s]`,
+    `old_id[b-1]`, `pick_element(b)` in bounds) and `remap_nodes` reach no panic site -/
+theorem minimize_total {A : Automaton} (hw : AutWF A) (h : wfAut A = true) :
+    ∃ A', A.minimize = some A' :=
+  Minimize.minimize_total hw h
+
+/-- T:minimize_correct_total — the headline, unconditionally: for every automaton as the crate hands
+    them out the model's `minimize` returns an automaton `A'` with (1) the same language on
+    well-formed strings, (2) pairwise distinguishable states, (3) consistent ids / counts / initial
+    state, (4) as many states as the Myhill–Nerode index when all states of `A` are reachable -/
+theorem minimize_correct_total {A : Automaton} (hw : AutWF A) (h : wfAut A = true) :
+    ∃ A', A.minimize = some A' ∧
+    (∀ w, WFs w → A'.accepts w = A.accepts w) ∧
+    (∀ s t, s < A'.states.length → t < A'.states.length → s ≠ t → resid A' s ≠ resid A' t) ∧
+    (A'.numStates = A'.states.length ∧ A'.initialState < A'.numStates ∧
+      (∀ i (st : State), A'.states[i]? = some st → st.id = i) ∧
+      A'.numFinalStates = (A'.states.filter (·.isFinal)).length) ∧
+    (AllReachable A → A'.numStates = nerodeIndex A) := by
+  obtain ⟨A', hm⟩ := minimize_total hw h
+  exact ⟨A', hm, minimize_model_correct hw h hm⟩
+
+/-- non-vacuity: on the example automaton (hypotheses `exA_autWF`, `wfAut exA`) -/
+example : ∃ Q, Automaton.minimize exA = some Q ∧ (∀ w, WFs w → Q.accepts w = exA.accepts w) ∧
+    Q.numStates = nerodeIndex exA := by
+  obtain ⟨Q, hQ, h1, _, _, h4⟩ := minimize_correct_total exA_autWF (by decide +kernel)
+  exact ⟨Q, hQ, h1, h4 ex_reachable⟩
 
 end Smt.C04
